@@ -320,16 +320,32 @@ def userOk (ucomp : List String) (p : Particle α) : Bool :=
   | .fluid f => f.user_data.isEmpty || ucomp.all fun name => (findUser f.user_data name).isSome
   | .insol _ => true
 
-/-- the row `m0[i,:]` (l.957, 976) -/
+/-- numpy broadcasting of `n` rows/entries into a slice of length `n`: a source of that length is
+    copied, a source of length 1 is repeated (anything else: ValueError, see `m0Ok`) -/
+def bcast {β : Type} (n : Nat) (l : List β) : List β :=
+  if l.length = n then l else
+  match l with
+  | [x] => List.replicate n x
+  | _ => l
+
+/-- the row `m0[i,:]` (l.957, 976).  The composition of the particle itself is NOT consulted: a
+    soluble particle whose own composition is shorter than `chem_names` has its single mass
+    repeated, one with the same number of compounds in another order is relabelled on load. -/
 def m0Row (nchems : Nat) (p : Particle α) : List (Cell α) :=
   match p.dbm with
-  | .fluid _ => p.m0.map some
+  | .fluid _ => bcast nchems (p.m0.map some)
   | .insol _ => some (p.m0.headD 0) :: List.replicate (nchems - 1) none
 
-/-- numpy can broadcast the masses into the row -/
+/-- the block `delta_groups[i,:,:]` of a soluble particle (l.953-956) -/
+def dgBlock (nchems : Nat) (chemLen : Nat) (f : Fluid α) : List (List (Cell α)) :=
+  if f.calc_delta != 0 then bcast nchems (f.delta_groups.map (·.map some))
+  else (zeros chemLen 15).map (·.map some)
+
+/-- numpy can broadcast the masses / the group array into the slice -/
 def m0Ok (nchems : Nat) (p : Particle α) : Bool :=
   match p.dbm with
-  | .fluid _ => p.m0.length == nchems
+  | .fluid f => (p.m0.length == nchems || p.m0.length == 1) &&
+                (f.delta_groups.length == nchems || f.delta_groups.length == 1 || f.calc_delta == 0)
   | .insol _ => p.m0.length == 1
 
 def nchemsOf (chem : List String) : Nat := if chem.length > 0 then chem.length else 1
@@ -371,8 +387,7 @@ def mkTable (ptype : Nat) (chem : List String) (ps : List (Particle α)) (KT0 : 
     sigma_correction := ff (fun f => some f.sigma) (fun _ => some 1)
     -- `if particle.calc_delta:` is true for -1 and 1: the particle's array is always written
     delta_groups := ps.map fun p => match p.dbm with
-      | .fluid f => if f.calc_delta != 0 then f.delta_groups.map (·.map some)
-                    else (zeros chem.length 15).map (·.map some)
+      | .fluid f => dgBlock nchems chem.length f
       | .insol _ => List.replicate nchems (List.replicate 15 none)
     m0 := ps.map (m0Row nchems)
     T0 := ps.map fun p => some p.T0
@@ -711,7 +726,9 @@ def saveBpm (h : Header) (s : Bpm α) : Option (File α) :=
     (saveTable 2 s.chem_names s.particles s.K_T0).map fun tbl =>
       (header h).add ((bpmOwn s cjLast).add (tbl.toFile 2))
 
-def loadBpm (f : File α) : Bpm α :=
+/-- `load_sim` up to (not including) the construction of the local Lagrangian element: what the
+    file reader alone yields -/
+def loadBpmFile (f : File α) : Bpm α :=
   let ps := loadParticles f
   let nt := f.vattrN "t" "n_times"
   let ns := f.dim "ns"
@@ -729,6 +746,29 @@ def loadBpm (f : File α) : Bpm α :=
     t := (List.range nt).map fun r => valF (at2 (f.f2 "t") r 0),
     q := tabulate2 nt ns fun r c => valF (at2 (f.f2 "q") r c),
     Ta := valF (at1 (f.f1 "Ta") 0), Sa := valF (at1 (f.f1 "Sa") 0), P := valF (at1 (f.f1 "P") 0) }
+
+/-- the state `LagElement.update` gives a particle (bent_plume_model.py l.3195-3222) -/
+structure PState (α : Type) where
+  integrate : Bool
+  tp : α
+  xp : α
+  yp : α
+  zp : α
+
+/-- `load_sim` l.1378: `self.q_local = LagElement(self.t[0], self.q[0,:], …, self.particles, …)`.  Its
+    `update` re-derives, from the FIRST row of the solution, every particle's `integrate` flag
+    (X_p is NaN ⇔ outside) and, through `track`, its `t, x, y, z` — overwriting what the reader took
+    from the file (the state at the END of the simulation).  The values are those the plume
+    kinematics give (`st`, an input here: not data movement); no other definition field changes. -/
+def lagReset : List (PState α) → List (Particle α) → List (Particle α)
+  | s :: st, p :: ps =>
+    { p with integrate := s.integrate, tp := s.tp, xp := s.xp, yp := s.yp, zp := s.zp } :: lagReset st ps
+  | _, ps => ps
+
+/-- `bent_plume_model.Model.load_sim` -/
+def loadBpm (st : List (PState α)) (f : File α) : Bpm α :=
+  let r := loadBpmFile f
+  { r with particles := lagReset st r.particles }
 
 /-! ## stratified_plume_model.Model -/
 
@@ -1045,6 +1085,15 @@ def pBpm : P (Bpm Float) := do
   let Pp ← pF
   pure ⟨X, D, Vj, phi, theta, Sj, Tj, cj, tracers, chem, ps, track, dtm, sdm, kt0, ns, t, q, Ta, Sa, Pp⟩
 
+def pStates : P (List (PState Float)) := do
+  pMany (← pNat) (do
+    let i ← pBool
+    let t ← pF
+    let x ← pF
+    let y ← pF
+    let z ← pF
+    pure ⟨i, t, x, y, z⟩)
+
 def pSpm : P (Spm Float) := do
   let ps ← pParticles
   let chem ← pNames
@@ -1189,13 +1238,13 @@ def dispatch : Dispatch := fun name args =>
         | none => [.t "raises"]
   | "SaveLoad.bpm.save" => run1 (do let h ← pHeader; let s ← pBpm; pure (h, s)) args
       fun (h, s) => eOptFile (saveBpm h s)
-  | "SaveLoad.bpm.load" => run1 (do let h ← pHeader; let s ← pBpm; pure (h, s)) args
-      fun (h, s) => match saveBpm h s with
-        | some f => .t "ok" :: eBpm (loadBpm f)
+  | "SaveLoad.bpm.load" => run1 (do let h ← pHeader; let s ← pBpm; let st ← pStates; pure (h, s, st)) args
+      fun (h, s, st) => match saveBpm h s with
+        | some f => .t "ok" :: eBpm (loadBpm st f)
         | none => [.t "raises"]
-  | "SaveLoad.bpm.resave" => run1 (do let h ← pHeader; let s ← pBpm; pure (h, s)) args
-      fun (h, s) => match saveBpm h s with
-        | some f => eOptFile (saveBpm h (loadBpm f))
+  | "SaveLoad.bpm.resave" => run1 (do let h ← pHeader; let s ← pBpm; let st ← pStates; pure (h, s, st)) args
+      fun (h, s, st) => match saveBpm h s with
+        | some f => eOptFile (saveBpm h (loadBpm st f))
         | none => [.t "raises"]
   | "SaveLoad.spm.save" => run1 (do let h ← pHeader; let s ← pSpm; pure (h, s)) args
       fun (h, s) => eOptFile (saveSpm h s)
